@@ -4,6 +4,8 @@ real Michelson types and instruction classes against the scalar model of specs/C
 A group element is named by its scalar a (the point a*G of the standard generator; a = 0 is the point
 at infinity).  `eval_case(case)` -> list of {oid, ok, info, wclass}.
 """
+import functools
+
 from bounded import crypto_common as CC
 from specs import C21_bls_model as M
 
@@ -31,8 +33,13 @@ def _T(grp):
     return BLS12_381_G1Type if grp == 'g1' else BLS12_381_G2Type
 
 
-def enc(grp, a):
+@functools.lru_cache(maxsize=4096)
+def _enc(grp, a):
     return M.enc_g1(M.g1(a)) if grp == 'g1' else M.enc_g2(M.g2(a))
+
+
+def enc(grp, a):
+    return _enc(grp, a % R)
 
 
 def val(grp, a):
